@@ -370,8 +370,18 @@ def check(ctx, run):
                 ok = False
         run.ob("R4", "%s reports iff the test has not failed yet" % qn, g.site, ok)
     sf = prog.fn("MockSupport::failTest")
-    seq = [render(sf, c) for c in sf.calls()]
-    run.ob("R4", "the mock support clears its expectations before reporting (a second end-of-test check sees nothing)", sf.site, seq[:2] == ["clear()", "activeReporter_->failTest(%s)" % sf.params[0]["name"]], witness=seq)
+    run.analysed(sf)
+    seq = []
+    ev = Evaluator(prog, sf, env={sf.params[0]["name"]: 300, "activeReporter_": 770}, calls={"MockSupport::clear": lambda *a_: (seq.append(("clear",)), 0)[1],
+                                                                                              "MockFailureReporter::failTest": lambda o=None, *a_: (seq.append(("report", o, a_[-1] if a_ else None)), 0)[1]})
+    ev.pass_object = True
+    ev.heap_mode = True
+    try:
+        ev.run_blocks(sf.entry, max_steps=200)
+    except Unknown as u:
+        seq.append("unknown: %s" % u)
+    run.ob("R4", "MockSupport::failTest folded: the mock support clears its expectations before reporting the failure it was given to the active reporter (a second end-of-test check sees nothing)", sf.site,
+           seq == [("clear",), ("report", 770, 300)], witness=[str(x) for x in seq])
 
     # ---------------- R5 ----------------------------------------------------
     cw = prog.fn(EC + "::callWasMade")
@@ -446,12 +456,28 @@ def check(ctx, run):
     for meth, cmpf in (("hasInputParameter", "equals"), ("hasOutputParameter", "compatibleForCopying")):
         f = prog.fn(EC + "::" + meth)
         run.analysed(f)
-        rets = [render(f, f.node(n.get("value"))) for n in f.walk() if n["k"] == "ReturnStmt"]
         pn = f.params[0]["name"]
-        ini = {k: render(f, v) for k, v in local_inits(f).items()}
-        lst = "inputParameters_" if "Input" in meth else "outputParameters_"
-        ok = rets == ["(p ? p->%s(%s) : ignoreOtherParameters_)" % (cmpf, pn)] and ini.get("p") == "%s->getValueByName(%s.getName())" % (lst, pn)
-        run.ob("R7", "%s: the expectation's stored value is the receiver of %s (its tolerance applies); a missing name matches only when other parameters are ignored" % (meth, cmpf), f.site, ok, witness={"returns": rets, "p": ini.get("p")})
+        own, other_list = ("inputParameters_", "outputParameters_") if "Input" in meth else ("outputParameters_", "inputParameters_")
+        bad, wit = None, []
+        for found, ans, ign in itertools.product((0, 1), (0, 1), (0, 1)):
+            asked, cmp_ = [], []
+            hooks = string_hooks({"MockNamedValueList::getValueByName": lambda o=None, *a_, found=found: (asked.append(o), 880 if found else 0)[1], "MockNamedValue::getName": lambda *a_: ("str", "p"),
+                                  "MockNamedValue::" + cmpf: lambda o=None, *a_, ans=ans: (cmp_.append((o, a_[-1] if a_ else None)), ans)[1]})
+            ev = Evaluator(prog, f, env={pn: 300, own: 6001, other_list: 6002, "ignoreOtherParameters_": ign}, calls=hooks)
+            ev.pass_object = True
+            ev.heap_mode = True
+            try:
+                ev.run_blocks(f.entry, max_steps=300)
+                r = getattr(ev, "ret", None)
+                r = int(bool(r)) if isinstance(r, (int, bool)) else r
+            except Unknown as u:
+                raise AnalysisBroken("C08.R7: %s cannot be folded: %s" % (meth, u))
+            want = ans if found else ign
+            wit.append({"stored": found, cmpf: ans, "ignore others": ign, "answers": r})
+            if bad is None and (r != want or asked != [6001] or (found and cmp_ != [(880, 300)]) or (not found and cmp_)):
+                bad = "stored value %s, %s answers %d, other parameters %signored: answers %s, asked list %s, compared %s" % ("found" if found else "missing", cmpf, ans, "" if ign else "not ", r, asked, cmp_)
+        run.ob("R7", "%s folded over (stored value found, %s answer, other parameters ignored): the expectation's stored value is the receiver of %s with the actual parameter as argument (its tolerance applies); a missing name matches only when other parameters are ignored" % (meth, cmpf, cmpf),
+               f.site, bad is None, witness=bad or wit[:3], what=bad or "")
 
     # ---------------- R8 ----------------------------------------------------
     n8 = 0
@@ -460,9 +486,22 @@ def check(ctx, run):
         if m and m.group(1) in TOK:
             n8 += 1
             run.analysed(f)
-            rets = [render(f, f.node(n.get("value")), keep_explicit_casts=False) for n in f.walk() if n["k"] == "ReturnStmt"]
-            run.ob("R8", "%s reads get%sValue()" % (f.name, m.group(1)), f.site, rets == ["returnValue().get%sValue()" % m.group(1)], witness=rets,
-                   what="" if rets == ["returnValue().get%sValue()" % m.group(1)] else "the getter of another type is used: the value comes back converted or fails the type check")
+            getters = []
+            hooks = {AC + "::returnValue": lambda *a_: 990, "MockActualCall::returnValue": lambda *a_: 990}
+            for g_ in prog.functions.values():
+                if g_.cls == "MockNamedValue" and re.match(r"^get\w+Value$", g_.name):
+                    hooks[g_.qn] = (lambda nm_: (lambda o=None, *a_: (getters.append((nm_, o)), 42)[1]))(g_.name)
+            ev = Evaluator(prog, f, env={"this": 100}, calls=hooks)
+            ev.pass_object = True
+            ev.heap_mode = True
+            try:
+                ev.run_blocks(f.entry, max_steps=300)
+                r = getattr(ev, "ret", None)
+            except Unknown as u:
+                r = "unknown: %s" % u
+            okg = getters == [("get%sValue" % m.group(1), 990)] and r == 42
+            run.ob("R8", "%s folded: reads get%sValue() of the call's return value and answers that" % (f.name, m.group(1)), f.site, okg, witness={"getters asked": getters, "returns": r},
+                   what="" if okg else "the getter of another type is used: the value comes back converted or fails the type check")
         m = re.match(r"^return(\w+)ValueOrDefault$", f.name)
         if m and m.group(1) in TOK:
             n8 += 1
@@ -568,8 +607,16 @@ def check(ctx, run):
         miss = sorted((fields - reset_fields) | (lists - reset_lists))
         run.ob("R9", "state set by %s is reset by resetActualCallMatchingState" % mk, rs.site, not miss and bool(fields or lists), witness={"sets": sorted(fields | lists), "reset": sorted(reset_fields | reset_lists)},
                what="" if not miss else "%s stays set after the call it was matched for: a later call is matched although it did not pass it" % miss)
-    a = {l: render(rs, r) for l, r, n in assignments(rs)}
-    run.ob("R9", "after reset an expectation bound to an object is again waiting for onObject()", rs.site, a.get("wasPassedToObject_") == "!isSpecificObjectExpected_", witness=a)
-    im = prog.fn(EC + "::isMatchingActualCall")
-    rets = [render(im, im.node(n.get("value"))) for n in im.walk() if n["k"] == "ReturnStmt"]
-    run.ob("R9", "an expectation matches only with every parameter passed and the object satisfied", im.site, rets in (["(areParametersMatchingActualCall() && wasPassedToObject_)"], ["(wasPassedToObject_ && areParametersMatchingActualCall())"]), witness=rets)
+    got = {}
+    for spec in (0, 1):
+        ev = Evaluator(prog, rs, env={"isSpecificObjectExpected_": spec, "wasPassedToObject_": 1 - (0 if spec else 1), "inputParameters_": 6001, "outputParameters_": 6002},
+                       calls={"MockNamedValueList::begin": lambda *a_: 0})
+        ev.pass_object = True
+        ev.heap_mode = True
+        try:
+            ev.run_blocks(rs.entry, max_steps=300)
+            got[spec] = ev.env.get("wasPassedToObject_")
+        except Unknown as u:
+            got[spec] = "unknown: %s" % u
+    run.ob("R9", "reset folded: an expectation bound to an object is again waiting for onObject(), one that is not bound is satisfied (isMatchingActualCall itself is folded over its truth table under R13)", rs.site,
+           got.get(0) in (1, True) and got.get(1) in (0, False), witness={"specific object expected -> passed to object after reset": str(got)})
